@@ -1,5 +1,5 @@
 CHECKS = [
-    entry("C06", "collector",
+    entry("C06", "collector", crashcap=True,
           technique="property-based testing (rapid): generated span/reload histories on the real collector under virtual time; reference model of decoration and root counts per forwarded span",
           quick=dict(checks=700, budget_s=70),
           thorough=dict(checks=8000, shards=16, budget_s=540),
